@@ -274,3 +274,43 @@ def saturated_pool_history():
                                        st.just(['tick'])), min_size=2, max_size=12))
         return cfg, acts + tail
     return strat()
+
+
+# -- bounded exhaustive schedule enumeration --------------------------------------------------------------
+
+DFS_SCENARIOS = [
+    # (name, config, prefix)
+    ('enqueue-vs-announce', {'backend': 'dict', 'backoff': [0, 5], 'backoff_forever': True, 'announce': True},
+     [['enqueue', {'n': 2, 'sender': True, 'body': ''}], ['announce', 0]]),
+    ('retry-vs-flush', {'backend': 'dict', 'backoff': [5], 'backoff_forever': True},
+     [['enqueue', {'n': 2, 'sender': True, 'body': ''}], ['serve', {'shape': 'raise_t', 'replies': [0]}], ['flush']]),
+    ('two-messages-backoff-0', {'backend': 'shelf', 'backoff': [0, 0], 'backoff_forever': True},
+     [['enqueue', {'n': 2, 'sender': True, 'body': ''}], ['enqueue', {'n': 1, 'sender': True, 'body': ''}]]),
+    ('restart-vs-enqueue', {'backend': 'dict', 'backoff': [5], 'backoff_forever': True, 'announce': True},
+     [['enqueue', {'n': 1, 'sender': True, 'body': ''}], ['serve', {'shape': 'raise_t', 'replies': [0]}], ['restart'],
+      ['enqueue', {'n': 1, 'sender': True, 'body': ''}]]),
+]
+
+
+def drive_schedule_dfs(ctx, owners, depth, nontrivial):
+    """Every order of gate releases up to `depth` releases (stateless re-execution), then the fair drain."""
+    for si, (name, cfg, prefix) in enumerate(DFS_SCENARIOS):
+        stack = [[]]
+        while stack:
+            choices = stack.pop()
+            # sub-trees below depth 2 are owned by one shard; the few nodes above are walked by all, judged by shard 0
+            if len(choices) >= 2:
+                owner = (choices[0] * 7 + choices[1] * 3 + si) % ctx.nshards
+                if owner != ctx.shard:
+                    continue
+                mine = True
+            else:
+                mine = ctx.shard == 0
+            acts = prefix + [['pick', c] for c in choices]
+            fails, labels, stats = qm.run_history(cfg, acts, owners if mine else set())
+            if mine:
+                ctx.record(('dfs', name, tuple(choices)), len(choices) >= 3, labels=['schedule-dfs', 'scenario=' + name] + sorted(labels),
+                           case=lambda: {'cfg': cfg, 'actions': acts}, failures=fails)
+            if len(choices) < depth and not stats['exhausted_choice']:
+                for c in range(stats['pending_now']):
+                    stack.append(choices + [c])
